@@ -6,6 +6,7 @@
 -/
 import CB.Props.C16
 import CB.Lemmas.GenBitsHex
+import CB.Lemmas.GenEncodingFrom
 namespace CB.P16G
 open CB CB.Encoding
 
@@ -82,5 +83,87 @@ theorem src_decode_hex_byte_bits (a b : BitVec 8) :
 /-- hypotheses are satisfiable: `"7f"` decodes to `0x7f`, `"7g"` is reported -/
 example : Gen.Encoding.decode_hex_byte (0x37#8, 0x66#8) = (0x7f#8, 0#16) ∧
     (Gen.Encoding.decode_hex_byte (0x37#8, 0x67#8)).2 ≠ 0#16 := by decide
+
+/-! ## T16.G2 — the SOURCE of the primitive conversions `Uint::from_u8/u16/u32/u64/from_word/from_wide_word`
+(src/uint/from.rs → CB/Gen/Encoding.lean, namespace `CB.Gen.Encoding.Uint`; every `assert!` of a function is the
+generated `<fn>_asserts`), for EVERY limb count -/
+
+open CB.GenChains in
+/-- the hand-written `fromWord` / `fromU128` ARE the translated source: `none` (the panic) exactly when the translated
+    `assert!`s fail, otherwise the limbs the translated body builds -/
+theorem model_is_translated_source_from (L : Nat) (a : BitVec 8) (b : BitVec 16) (c : BitVec 32) (d : BitVec 64)
+    (e : BitVec 128) :
+    (fromWord L a.toNat = if Gen.Encoding.Uint.from_u8_asserts L a then some (nats (Gen.Encoding.Uint.from_u8 L a)) else none) ∧
+    (fromWord L b.toNat = if Gen.Encoding.Uint.from_u16_asserts L b then some (nats (Gen.Encoding.Uint.from_u16 L b)) else none) ∧
+    (fromWord L c.toNat = if Gen.Encoding.Uint.from_u32_asserts L c then some (nats (Gen.Encoding.Uint.from_u32 L c)) else none) ∧
+    (fromWord L d.toNat = if Gen.Encoding.Uint.from_u64_asserts L d then some (nats (Gen.Encoding.Uint.from_u64 L d)) else none) ∧
+    (fromWord L d.toNat = if Gen.Encoding.Uint.from_word_asserts L d then some (nats (Gen.Encoding.Uint.from_word L d)) else none) ∧
+    (fromU128 L e.toNat =
+      if Gen.Encoding.Uint.from_wide_word_asserts L e then some (nats (Gen.Encoding.Uint.from_wide_word L e)) else none) :=
+  ⟨GenEncoding.from_u8_bridge L a, GenEncoding.from_u16_bridge L b, GenEncoding.from_u32_bridge L c,
+   GenEncoding.from_u64_bridge L d, GenEncoding.from_word_bridge L d, GenEncoding.from_wide_word_bridge L e⟩
+
+open CB.GenChains in
+/-- a bridge in the shape `model = if asserts then some (nats src) else none`, with the model's value theorem, gives
+    the value theorem of the source -/
+theorem src_of_bridge {m : Option (List Nat)} {as : Bool} {r : List (BitVec 64)} {v n : Nat}
+    (hb : m = if as then some (nats r) else none)
+    (hm : ∃ l, m = some l ∧ val l = v ∧ WF l ∧ l.length = n) :
+    as = true ∧ val (nats r) = v ∧ r.length = n := by
+  obtain ⟨l, h1, h2, _, h4⟩ := hm
+  cases as with
+  | false => rw [h1] at hb; cases hb
+  | true =>
+    rw [h1] at hb
+    simp only [if_true, Option.some.injEq] at hb
+    subst hb
+    exact ⟨rfl, h2, by rw [← h4, nats_length]⟩
+
+open CB.GenChains in
+/-- primitive conversions of the source are LOSSLESS for every limb count the `assert!` admits: the assertions pass, the
+    result has `LIMBS` limbs and its value is the primitive; and they panic (assertion false) for too few limbs -/
+theorem src_from_primitive_exact (L : Nat) (a : BitVec 8) (b : BitVec 16) (c : BitVec 32) (d : BitVec 64)
+    (e : BitVec 128) :
+    (Gen.Encoding.Uint.from_u8_asserts (L + 1) a = true ∧ val (nats (Gen.Encoding.Uint.from_u8 (L + 1) a)) = a.toNat ∧
+      (Gen.Encoding.Uint.from_u8 (L + 1) a).length = L + 1) ∧
+    (Gen.Encoding.Uint.from_u16_asserts (L + 1) b = true ∧ val (nats (Gen.Encoding.Uint.from_u16 (L + 1) b)) = b.toNat ∧
+      (Gen.Encoding.Uint.from_u16 (L + 1) b).length = L + 1) ∧
+    (Gen.Encoding.Uint.from_u32_asserts (L + 1) c = true ∧ val (nats (Gen.Encoding.Uint.from_u32 (L + 1) c)) = c.toNat ∧
+      (Gen.Encoding.Uint.from_u32 (L + 1) c).length = L + 1) ∧
+    (Gen.Encoding.Uint.from_u64_asserts (L + 1) d = true ∧ val (nats (Gen.Encoding.Uint.from_u64 (L + 1) d)) = d.toNat ∧
+      (Gen.Encoding.Uint.from_u64 (L + 1) d).length = L + 1) ∧
+    (Gen.Encoding.Uint.from_word_asserts (L + 1) d = true ∧ val (nats (Gen.Encoding.Uint.from_word (L + 1) d)) = d.toNat ∧
+      (Gen.Encoding.Uint.from_word (L + 1) d).length = L + 1) ∧
+    (Gen.Encoding.Uint.from_wide_word_asserts (L + 2) e = true ∧
+      val (nats (Gen.Encoding.Uint.from_wide_word (L + 2) e)) = e.toNat ∧
+      (Gen.Encoding.Uint.from_wide_word (L + 2) e).length = L + 2) := by
+  have hB : ∀ {w : Nat} (x : BitVec w), w ≤ 64 → x.toNat < B := fun x h =>
+    Nat.lt_of_lt_of_le x.isLt (by rw [B_def]; exact Nat.pow_le_pow_right (by decide) h)
+  have hBB : e.toNat < B * B := by have := e.isLt; rw [B_def]; omega
+  exact ⟨src_of_bridge (GenEncoding.from_u8_bridge _ a) (fromWord_spec L _ (hB a (by decide))),
+    src_of_bridge (GenEncoding.from_u16_bridge _ b) (fromWord_spec L _ (hB b (by decide))),
+    src_of_bridge (GenEncoding.from_u32_bridge _ c) (fromWord_spec L _ (hB c (by decide))),
+    src_of_bridge (GenEncoding.from_u64_bridge _ d) (fromWord_spec L _ (hB d (by decide))),
+    src_of_bridge (GenEncoding.from_word_bridge _ d) (fromWord_spec L _ (hB d (by decide))),
+    src_of_bridge (GenEncoding.from_wide_word_bridge _ e) (fromU128_spec L _ hBB)⟩
+
+/-- the panics of the source: one-word conversions refuse `LIMBS = 0`, `from_wide_word` refuses `LIMBS < 2` -/
+theorem src_from_primitive_panics (a : BitVec 8) (b : BitVec 16) (c : BitVec 32) (d : BitVec 64) (e : BitVec 128) :
+    Gen.Encoding.Uint.from_u8_asserts 0 a = false ∧ Gen.Encoding.Uint.from_u16_asserts 0 b = false ∧
+    Gen.Encoding.Uint.from_u32_asserts 0 c = false ∧ Gen.Encoding.Uint.from_u64_asserts 0 d = false ∧
+    Gen.Encoding.Uint.from_word_asserts 0 d = false ∧ Gen.Encoding.Uint.from_wide_word_asserts 0 e = false ∧
+    Gen.Encoding.Uint.from_wide_word_asserts 1 e = false := by
+  have h1 := GenEncoding.from_u8_bridge 0 a
+  have h2 := GenEncoding.from_u16_bridge 0 b
+  have h3 := GenEncoding.from_u32_bridge 0 c
+  have h4 := GenEncoding.from_u64_bridge 0 d
+  have h5 := GenEncoding.from_word_bridge 0 d
+  have h6 := GenEncoding.from_wide_word_bridge 0 e
+  have h7 := GenEncoding.from_wide_word_bridge 1 e
+  have key : ∀ {as : Bool} {r : List Nat}, (none : Option (List Nat)) = (if as then some r else none) → as = false := by
+    intro as r h; cases as with
+    | false => rfl
+    | true => cases h
+  exact ⟨key h1, key h2, key h3, key h4, key h5, key h6, key h7⟩
 
 end CB.P16G
